@@ -962,7 +962,7 @@ impl Check for ForgedCallbackDuringLoan {
         let cfg = VaultCfg { cw20: c.cw20, fees: [Uint128::new(1_000_000_000_000_000), Uint128::new(2_000_000_000_000_000), Uint128::zero()] };
         let mut vw = VaultWorld::build(&cfg).map_err(|e| Fail::new(format!("world build failed: {e}")))?;
         let u0 = vw.user(0);
-        vw.deposit(&u0, c.deposit.u128()).map_err(|e| Fail::new(format!("funding deposit failed: {e}")))?;
+        vw.deposit(&u0, c.deposit.u128()).map_err(|e| Fail::unobservable(format!("set-up: funding deposit failed: {e}")))?;
         let bal = vw.w.bal(&vw.info, &vw.vault);
         let amount = crate::engine::gen::frac(c.loan_k, bal).max(1);
         let forge = Step::ForgeCallback { old_balance: c.old_balance, loan_amount: c.loan_amount };
